@@ -71,6 +71,7 @@ def run(rep, tier):
     builds = repo.configure_many(cfgs)
     lowered = repo.lower_many([(b, dict(group="lib", level="O0", langs=("c",), scev=True)) for b in builds])
     rep.rule("C10.D1", "share-count of every masked primitive call matches the configured key / data shares")
+    rep.rule("C10.D1t", "a masked state is handled by primitives of one share count between conversions (typestate of the share form)")
     rep.rule("C10.D3", "KEY_SHARES-1 fresh random words are drawn into `preserve` before each key-share permutation")
     for b, lr in zip(builds, lowered):
         m = ir.Module.load(lr.json)
@@ -79,7 +80,9 @@ def run(rep, tier):
         ks, ds, ms = effective_shares(b)
         rule_arity(rep, m, b.cfg.name, ks, ds)
         lri = repo.lower(b, group="lib", level="O0", langs=("c",), scev=True, inline_internal=True)
-        rule_preserve(rep, ir.Module.load(lri.json), b.cfg.name, ks)
+        mi = ir.Module.load(lri.json)
+        rule_preserve(rep, mi, b.cfg.name, ks)
+        rule_share_form(rep, mi, b.cfg.name, ks, ds)
     rep.floor("C10.D1", 40 * len(cfgs))
     rep.floor("C10.D3", 6 * len(cfgs))
     try:
@@ -202,6 +205,100 @@ def rule_arity(rep, m, cname, ks, ds):
                               "%d data shares" % (f.name, k1, k2, cal, ks, ds), config=cname)
                 continue
             rep.instance(rid, 1, {"config": cname, "function": f.name, "callee": cal, "key_shares": ks, "data_shares": ds})
+
+
+def rule_share_form(rep, m, cname, ks, ds, rid="C10.D1t"):
+    """D1t: typestate of the share form of a masked permutation state.  A masked
+    state is in K-share form after ascon_x<K>_* touched it and after
+    ascon_x<K>_copy_from_x<B>(state, ...) converted it; every state-level
+    primitive ascon_x<N>_*(state, ...) and every word primitive
+    ascon_masked_word_x<N>_*(&state->M[i], ...) requires form N.  Applying an
+    N-share primitive to a state in another form decodes a different value (the
+    upper shares are stale or missing).  Forward dataflow over the CFG of each
+    masked AEAD function (file-local helpers inlined); the form of a state the
+    function receives is whatever its first primitive assumes."""
+    if ks == ds:
+        rep.instance(rid, 1, {"config": cname, "note": "key and data share counts coincide: one form only"})
+        return
+    for f in m.defined():
+        if "ascon-aead-masked" not in f.srcfile:
+            continue
+        R = ptr.resolver(f)
+        sites = {}
+        state_roots = set()
+        for c in f.calls():
+            cal = c.callee or ""
+            ms, mw = STATE_FN.match(cal), WORD_FN.match(cal)
+            if not (ms or mw):
+                continue
+            argty = c.d.get("argty", [])
+            ptrs = []
+            for an, a in enumerate(c.ops):
+                if an < len(argty) and "ascon_masked_state" in argty[an] or (mw and an < len(argty) and "ascon_masked_word" in argty[an]):
+                    root = R.resolve(a).single()
+                    if root is not None and root[0] in ("param", "alloca"):
+                        ptrs.append((an, root))
+            mm = ms or mw
+            sites[id(c)] = (c, bool(ms), int(mm.group(1)), int(mm.group(3)) if mm.group(3) else None, ptrs)
+            if ms:
+                for an, root in ptrs:
+                    state_roots.add(root)
+        if not state_roots:
+            continue
+        by_block = {}
+        for c, is_state, k1, k2, ptrs in sites.values():
+            by_block.setdefault(c.block.name, []).append((c, is_state, k1, k2, ptrs))
+        order = f.rpo()
+        pos = {}
+        for b in order:
+            for n, i in enumerate(b.insts):
+                pos[id(i)] = n
+        IN = {order[0].name: {}}
+        flagged = {}
+        changed = True
+        rounds = 0
+        while changed and rounds < 50:
+            changed = False
+            rounds += 1
+            for b in order:
+                if b.name not in IN:
+                    continue
+                st = {k: set(v) for k, v in IN[b.name].items()}
+                for (c, is_state, k1, k2, ptrs) in sorted(by_block.get(b.name, []), key=lambda t: pos[id(t[0])]):
+                    if is_state and k2 is not None and len(ptrs) >= 2:
+                        (d_an, d_root), (s_an, s_root) = ptrs[0], ptrs[1]
+                        if s_root in state_roots and st.get(s_root) and k2 not in st[s_root]:
+                            flagged[id(c)] = (c, k2, sorted(st[s_root]))
+                        st[d_root] = {k1}
+                        continue
+                    for an, root in ptrs:
+                        if root not in state_roots:
+                            continue
+                        if st.get(root) and k1 not in st[root]:
+                            flagged[id(c)] = (c, k1, sorted(st[root]))
+                        if is_state:
+                            st[root] = {k1}
+                        elif not st.get(root):
+                            st[root] = {k1}
+                for sx in b.succs:
+                    cur = IN.get(sx.name)
+                    if cur is None:
+                        IN[sx.name] = {k: set(v) for k, v in st.items()}
+                        changed = True
+                    else:
+                        for k, v in st.items():
+                            if not v <= cur.get(k, set()):
+                                cur.setdefault(k, set()).update(v)
+                                changed = True
+        for c, need, have in flagged.values():
+            rep.violation(rid, "%s->%s" % (f.name, c.callee), c.where(),
+                          "%s applies the %d-share primitive %s to a masked state that is in %s-share form at this point (last "
+                          "touched by primitives of that share count, no conversion in between): the primitive reads shares that "
+                          "are stale or absent, so the encoded value changes" % (f.name, need, c.callee, "/".join(map(str, have))),
+                          config=cname)
+        if not flagged:
+            rep.instance(rid, 1, {"config": cname, "function": f.name, "state_objects": len(state_roots), "sites": len(sites)})
+
 
 
 def rule_preserve(rep, m, cname, ks):
